@@ -1,7 +1,9 @@
 import Aiorpcx.Common.Hex
 import Aiorpcx.C06.Model
 /-! Line-protocol driver for the C06 model.
-    in : `<max> <chunk> <chunk> ...`   (chunks in hex, `-` = empty chunk)
+    in : `<max> <chunk> <chunk> ...`   (chunks in hex, `-` = empty chunk; a chunk may also be
+         written as parts joined by `+`, a part being hex or `<hex>*<count>` = hex repeated,
+         e.g. `78+61*999998+0a`, so that megabyte chunks stay short on the line)
     out: `M<hex>` / `E` tokens, space separated (`.` when there is no output) -/
 open Aiorpcx Aiorpcx.C06
 
@@ -9,10 +11,23 @@ def showOut : Out → String
   | .msg b => "M" ++ Hex.showBytes b
   | .memErr => "E"
 
+def parsePart (p : String) : Option (List UInt8) :=
+  match p.splitOn "*" with
+  | [h] => Hex.parseBytes h
+  | [h, n] =>
+    match Hex.parseBytes h, n.toNat? with
+    | some b, some k => some (List.replicate k b).flatten
+    | _, _ => none
+  | _ => none
+
+def parseChunk (c : String) : Option (List UInt8) :=
+  if c == "-" then some [] else
+  ((c.splitOn "+").mapM parsePart).map List.flatten
+
 def handle (line : String) : String :=
   match line.splitOn " " with
   | mx :: chunks =>
-    match mx.toNat?, (chunks.filter (· ≠ "")).mapM Hex.parseBytes with
+    match mx.toNat?, (chunks.filter (· ≠ "")).mapM parseChunk with
     | some m, some cs =>
         let outs := run m [] false cs
         if outs.isEmpty then "." else String.intercalate " " (outs.map showOut)
